@@ -129,7 +129,8 @@ def gen(rng, tier):
             later_ok = any(j not in tf and any(i < j for i in tf) for j in range(ntask))
             sd = {'op': 'shutdown', 'plugin_faults': [i for i in sub if i < nplug],
                   'task_faults': tf, 'ntask': ntask,
-                  'cls': rng.choice(['exc', 'base']), 'running': later_ok or rng.random() < 0.4, 'bg_thread': bg}
+                  'cls': rng.choice(['exc', 'base']), 'running': later_ok or rng.random() < 0.4, 'bg_thread': bg,
+                  'late_submit': ntask >= 1 and rng.random() < 0.5}
             c = dict(base)
             c['ops'] = head + [sd, {'op': 'hit'}] + tail
             yield c
@@ -154,6 +155,9 @@ def corpus():
         # an earlier pending send fails while a later one is still in flight: shutdown must wait for both
         {'pre_sys': None, 'pre_thr': None, 'no_trace': False, 'nplug': 0,
          'ops': [{'op': 'start'}, dict(sd, ntask=2, task_faults=[0], running=True)]},
+        # a delivery is offered by another thread while flush is blocked on a pending send: refused, or drained too
+        {'pre_sys': None, 'pre_thr': None, 'no_trace': False, 'nplug': 1,
+         'ops': [{'op': 'start'}, dict(sd, ntask=1, task_faults=[], running=True, late_submit=True)]},
         # second cycle after the application changed its trace functions
         {'pre_sys': 'h', 'pre_thr': 'h', 'no_trace': False, 'nplug': 1,
          'ops': [{'op': 'start'}, dict(sd), {'op': 'host_set', 'sys': 3, 'thr': 4}, {'op': 'start'}, {'op': 'hit'}, dict(sd)]},
@@ -305,6 +309,39 @@ def run_case(case, out):
                 def release_all():
                     for gt in gates:
                         gt.set()
+                # another thread hands the agent a delivery WHILE shutdown's flush is blocked on a pending send
+                late = {}
+                if op.get('late_submit') and was and futures:
+                    flush_entered = threading.Event()
+                    returned = threading.Event()
+                    late_gate = threading.Event()
+                    th = deep.task_handler
+                    orig_flush = th.flush
+
+                    def flush():
+                        flush_entered.set()
+                        return orig_flush()
+                    th.flush = flush
+
+                    def late_task():
+                        late_gate.wait(8)
+                        late['ran_after_return'] = returned.is_set()
+                        return 'late'
+
+                    def late_submitter():
+                        if not flush_entered.wait(10):
+                            late['error'] = 'flush not entered'
+                            return
+                        time.sleep(0.005)
+                        try:
+                            late['future'] = th.submit_task(late_task)
+                            late['accepted'] = True
+                        except BaseException as e:      # noqa: B902
+                            late['accepted'] = False
+                            late['refused_with'] = type(e).__name__
+                        late['submitted'] = True
+                    lt = threading.Thread(target=late_submitter)
+                    lt.start()
                 if op.get('bg_thread') and was and not bg:
                     # a thread started before the shutdown: it has the agent's trace function (threading.settrace)
                     bg['gate'] = threading.Event()
@@ -326,10 +363,16 @@ def run_case(case, out):
                     bg['thread'].start()
                     if not bg['ready'].wait(10):
                         raise core.Infra('background thread did not reach its gate')
-                if op.get('running') and futures:
+                if (op.get('running') or op.get('late_submit')) and futures:
                     # the sends are in flight when shutdown starts: the failing ones finish first (flush is already
                     # waiting), the others stay parked well beyond the moment a non-draining shutdown would return
                     def staged():
+                        if late:
+                            pass
+                        if op.get('late_submit'):
+                            t1 = time.time()
+                            while not late.get('submitted') and 'error' not in late and time.time() - t1 < 10:
+                                time.sleep(0.002)       # the pending sends stay parked until the late delivery was offered
                         time.sleep(0.01)
                         for i in op['task_faults']:
                             if i < len(gates):
@@ -348,6 +391,23 @@ def run_case(case, out):
                     raised = type(e).__name__
                 took = time.time() - t0
                 done_at_return = all(f.done() for f in futures)     # BEFORE anything else is released
+                late_obs = None
+                if op.get('late_submit') and was and futures:
+                    returned.set()
+                    lt.join(20)
+                    if lt.is_alive() or 'error' in late:
+                        raise core.Infra('late submitter: ' + str(late.get('error', 'did not finish')))
+                    in_flight = bool(late.get('accepted')) and not late['future'].done()
+                    late_gate.set()
+                    if late.get('accepted'):
+                        try:
+                            late['future'].result(20)
+                        except BaseException:       # noqa: B902
+                            pass
+                    late_obs = {'accepted': bool(late.get('accepted')), 'in_flight_at_return': in_flight,
+                                'ran_after_return': bool(late.get('ran_after_return')),
+                                'refused_with': late.get('refused_with')}
+                    th.flush = orig_flush
                 release_all()
                 npolls = len(ch.polls) if ch is not None else 0
                 time.sleep(0.02)
@@ -356,7 +416,7 @@ def run_case(case, out):
                          'polls_after': (len(ch.polls) - npolls) if ch is not None else 0,
                          'pending_done': done_at_return, 'ntask': len(futures),
                          'shut_calls': [e[0] for e in rec.events if e[1] == 'shutdown'][shut_before:],
-                         'slow': took > 8}
+                         'slow': took > 8, 'late': late_obs}
                 if bg.get('thread') is not None and 'after' not in bg['res'] and was:
                     bg['gate'].set()
                     bg['thread'].join(20)
@@ -450,6 +510,10 @@ def oracle(case, obs):
                              f'{st["polls_after"]} polls)')
                 if not st['pending_done']:
                     v.append(f'{where}: {st["ntask"]} pending sends were not all waited for')
+                lo = st.get('late')
+                if lo and (lo['in_flight_at_return'] or lo['ran_after_return']):
+                    v.append(f'{where}: a delivery handed over while shutdown was draining was accepted and still in flight '
+                             f'when shutdown() returned: it reaches the service after the agent is shut down')
                 if st['shut_calls'] != plugs:
                     v.append(f'{where}: plugin shutdown calls {st["shut_calls"]}, expected every plugin once: {plugs}')
                 if st.get('bg'):
